@@ -28,14 +28,14 @@ func (c *ProxyConfig) setRestartNeededProps() {
 	c.CaKey.SetRequiresRestart()
 }
 
-func (c *ProxyConfig) verify() error {
-	if c.Listen.Read() == "" {
+func (c *ProxyConfig) verify(v view) error {
+	if c.Listen.pending(v) == "" {
 		return fmt.Errorf("proxy.listen cannot be empty")
 	}
-	if c.CaCert.Read() == "" {
+	if c.CaCert.pending(v) == "" {
 		return fmt.Errorf("proxy.ca_cert cannot be empty")
 	}
-	if c.CaKey.Read() == "" {
+	if c.CaKey.pending(v) == "" {
 		return fmt.Errorf("proxy.ca_key cannot be empty")
 	}
 	return nil
